@@ -12,6 +12,9 @@
 (*  {"ev":"walk","proto":p,"path":[m..],"cstates":[s..],"sstates":[s..]}   *)
 (*     a real pair driven along a TLC behaviour, states after each message *)
 (*     ("" once the agent could not follow, see WalkBlind);                *)
+(*  {"ev":"reach","proto":p,"role":r,"path":[m..],"state":s,"err":text}    *)
+(*     logged only when a probe could not set its state up: driving the    *)
+(*     pair along the valid path failed (err) or ended elsewhere (state);  *)
 (*  {"ev":"end"}  - every required (protocol, role, state, dir, message)   *)
 (*     probe must have been logged by then (so a dropped event is noticed).*)
 EXTENDS MiniProtocols, TraceKit
@@ -54,7 +57,13 @@ TWalk ==
            /\ WalkOK(Q, "server", e.path, e.sstates)
     /\ UNCHANGED seen
 
+\* driving a real pair along a valid path with the state-tracking methods must work
+TReach ==
+    /\ IsEvent("reach")
+    /\ LET e == Rec[l]  Q == ByName(e.proto) IN e.err = "" /\ e.state = Run(Q, Q.init, e.path)
+    /\ UNCHANGED seen
+
 TEnd == IsEvent("end") /\ Required \subseteq seen /\ UNCHANGED seen
 
-TNext == TCall \/ TWalk \/ TEnd
+TNext == TCall \/ TWalk \/ TReach \/ TEnd
 =============================================================================
